@@ -237,7 +237,46 @@ def root(x: f32[{N + 2}], y: f32[{N + 2}]):
 """
     return GenProgram(HEADER + text, "root", ["cp"], [], {"template": "index_identities", "prefer_ops": ["unroll_loop", "cut_loop", "simplify", "inline"]})
 
-ALL = [t_negdiv, t_negdiv, t_window_chain, t_window_chain, t_scoped_allocs, t_const_windows, t_mixed_prec, t_mixed_prec, t_index_identities, t_index_identities]
+
+def t_sibling_ranges(rng):
+    """sibling loops whose iterators have one spelling but ranges of different sign relative to an
+    offset: the same index text (`(i - s) % c`, `(i - s) / c`) needs C's operators in one loop and
+    floor semantics in the other, in either order; also as a window offset of a call"""
+    c = _c(rng, [2, 3, 4])
+    s_ = _c(rng, [2, 3, 4, 5])
+    v = _c(rng, ["i", "j"])
+    hi = s_ + _c(rng, [c, c + 1, 2 * c])
+    N = 2 * (hi + c + 2)
+    base = (s_ + c - 1) // c + 1  # keeps (v - s) / c + base >= 0 for v >= 0
+
+    def stmt(d):
+        k = _c(rng, ["mod", "div", "both", "win"])
+        if k == "mod":
+            return f"{d}[({v} - {s_}) % {c}] += x[{v}]"
+        if k == "div":
+            return f"{d}[({v} - {s_}) / {c} + {base}] += x[{v}]"
+        if k == "both":
+            return f"{d}[({v} - {s_}) % {c} + {c} * (({v} - {s_}) / {c} + {base})] += x[{v}]"
+        return f"cp(2, {d}[({v} - {s_}) % {c} : ({v} - {s_}) % {c} + 2], x[{v} : {v} + 2])"
+
+    nonneg = f"for {v} in seq({s_}, {hi}):\n        {stmt('y')}"
+    neg = f"for {v} in seq(0, {s_}):\n        {stmt('z')}"
+    mixed = f"for {v} in seq({max(0, s_ - 1)}, {s_ + 2}):\n        {stmt('y')}"
+    loops = _c(rng, [[nonneg, neg], [nonneg, neg], [neg, nonneg], [nonneg, mixed, neg], [nonneg, nonneg.replace("y[", "z["), neg]])
+    body = "\n    ".join(loops)
+    text = f"""@proc
+def cp(n: size, dst: [f32][n], src: [f32][n]):
+    for k in seq(0, n):
+        dst[k] += src[k]
+
+
+@proc
+def root(x: f32[{N}], y: f32[{N}], z: f32[{N}]):
+    {body}
+"""
+    return GenProgram(HEADER + text, "root", ["cp"], [], {"template": "sibling_ranges", "prefer_ops": ["simplify", "unroll_loop", "fuse", "reorder_stmts"]})
+
+ALL = [t_negdiv, t_negdiv, t_window_chain, t_window_chain, t_scoped_allocs, t_const_windows, t_mixed_prec, t_mixed_prec, t_index_identities, t_index_identities, t_sibling_ranges, t_sibling_ranges]
 
 
 def any_ctemplate(rng):
